@@ -538,10 +538,10 @@ theorem names_map {β γ : Type} (f : Str × β → Str × γ) (hf : ∀ p, (f p
   simp [names, List.map_map, Function.comp_def, hf]
 
 theorem groupRegex_noAt (re : Str) (h : '@' ∉ re) : '@' ∉ groupRegex re := by
-  simp [groupRegex, h]
+  simp [groupRegex, h, Rio.Consts.markerGroupRegexFormat]
 
 theorem groupCapture_noAt (n re : Str) (hn : '@' ∉ n) (h : '@' ∉ re) : '@' ∉ groupCapture n re := by
-  simp [groupCapture, h, hn]
+  simp [groupCapture, h, hn, Rio.Consts.markerGroupCaptureFormat]
 
 theorem groupRegex_meta (re : Str) : ∃ d r, groupRegex re = d :: r ∧ isMeta d = true :=
   ⟨'(', _, rfl, by decide⟩
